@@ -34,10 +34,25 @@ def fl(x):
     return repr(float(x))
 
 
+class ArrLike:
+    """an object that is not an ndarray but has `__array__` (like an ASE Cell)"""
+
+    def __init__(self, data):
+        self.data = np.asarray(data)
+
+    def __array__(self, dtype=None, copy=None):
+        return self.data if dtype is None else self.data.astype(dtype)
+
+    def __deepcopy__(self, memo):
+        return ArrLike(self.data.copy())
+
+
 def wire(v):
     """Python value -> token string of the Lean driver grammar (numpy types are visible)"""
     if v is None:
         return "N"
+    if isinstance(v, ArrLike) or type(v).__name__ == "Cell":
+        return "al " + wire(np.asarray(v).tolist())
     if isinstance(v, np.bool_):
         return f"nb:{'T' if v else 'F'}"
     if isinstance(v, bool):
@@ -75,6 +90,8 @@ def normalise(v):
     """numpy scalars -> Python scalars, arrays -> nested lists (the stated normalisation); tuples stay tuples"""
     if isinstance(v, np.ndarray):
         return v.tolist()
+    if isinstance(v, ArrLike) or type(v).__name__ == "Cell":
+        return np.asarray(v).tolist()
     if isinstance(v, np.generic):
         return v.item()
     if isinstance(v, tuple):
@@ -101,7 +118,12 @@ def strict_same(a, b):
 
 # ------------------------------------------------------------------ generators
 def gen_scalar(rng, numpy_ok=True):
-    c = rng.randint(0, 9 if numpy_ok else 5)
+    c = rng.randint(0, 10 if numpy_ok else 5)
+    if c == 10:
+        if rng.random() < 0.5:
+            from ase.cell import Cell
+            return Cell(np.diag([1.0, 2.0, 0.5]))
+        return ArrLike([[1, 2], [3, 4]] if rng.random() < 0.5 else [0.5, 1.5])
     if c == 0:
         return None
     if c == 1:
@@ -146,8 +168,8 @@ def gen_dict(rng, depth, numpy_ok=True, bad=False, top=False):
         v = gen_val(rng, depth, numpy_ok, bad)
         if k == "_type" and not bad and isinstance(v, str) and v == "tuple":
             continue
-        if k == "_value" and isinstance(v, np.ndarray):  # never JSON-shaped; iterating an array is outside the model of decode_types
-            continue
+        if k in ("_value", "_type") and (isinstance(v, np.ndarray) or hasattr(v, "__array__")):
+            continue  # never JSON-shaped: iterating / comparing an array with "tuple" is outside the model of decode_types
         d[k] = v
     if bad and not top and rng.random() < 0.3:
         d["_type"] = "tuple"
@@ -367,7 +389,47 @@ def compare_objects(o, b):
     mo, mb = normalise(o.metadata), normalise(b.metadata)
     if not strict_same(mo, mb):
         diffs.append(["metadata", repr(mo)[:200], repr(mb)[:200]])
+    # every other constructor keyword (wave_vectors, exit_planes, miller_indices, slice_thickness, energy, cell …)
+    ko = o._copy_kwargs(exclude=("array", "metadata", "ensemble_axes_metadata"))
+    kb = b._copy_kwargs(exclude=("array", "metadata", "ensemble_axes_metadata"))
+    if sorted(ko) != sorted(kb):
+        diffs.append(["kwargs-keys", sorted(ko), sorted(kb)])
+    for k in ko:
+        if k in kb and not kw_same(ko[k], kb[k]):
+            diffs.append([f"kwargs.{k}", repr(ko[k])[:80], repr(kb[k])[:80]])
     return diffs
+
+
+def kw_same(x, y):
+    """constructor keywords: same kind of object (ndarray / ASE Cell / tuple / list / scalar / None — a list where an array or a
+    Cell was is a difference: downstream code indexes with them) and numerically equal"""
+    def kind(v):
+        if v is None:
+            return "none"
+        if isinstance(v, np.ndarray):
+            return "ndarray"
+        if type(v).__name__ == "Cell":
+            return "Cell"
+        if isinstance(v, (str, bool)):
+            return type(v).__name__
+        if isinstance(v, (tuple, list)):
+            return type(v).__name__
+        if isinstance(v, (int, float, complex, np.generic)):
+            return "number"
+        return type(v).__name__
+    if kind(x) != kind(y):
+        return False
+    if x is None:
+        return True
+    if isinstance(x, (str, bool)):
+        return x == y
+    try:
+        ax, ay = np.asarray(x), np.asarray(y)
+        if ax.dtype == object or ay.dtype == object:
+            return repr(x) == repr(y)
+        return ax.shape == ay.shape and ax.dtype.kind == ay.dtype.kind and np.array_equal(ax, ay, equal_nan=True)
+    except Exception:  # noqa
+        return repr(x) == repr(y)
 
 
 # ------------------------------------------------------------------ property
@@ -505,7 +567,7 @@ class C30(Property):
     # -- conformance --------------------------------------------------------------------
     def gen_case(self, ctx: Ctx, i):
         rng = ctx.rng
-        kind = KINDS[i % len(KINDS)] if i < 2 * len(KINDS) else rng.choice(KINDS[:13])
+        kind = KINDS[i % len(KINDS)] if i < 2 * len(KINDS) else rng.choice(KINDS)
         n_ens = rng.choice([0, 1, 1, 2])
         if kind in ("MeasurementsEnsemble",):
             n_ens = max(n_ens, 1)
@@ -542,9 +604,8 @@ class C30(Property):
         try:
             try:
                 o = build_object(full)
-            except Exception as e:  # noqa
-                ctx.count(f"build-failed:{kind}")
-                return "build-failed"
+            except Exception as e:  # noqa  — a recipe that cannot even construct its object is a broken check, not a skipped case
+                raise RuntimeError(f"conformance recipe for {kind} failed to build: {type(e).__name__}: {e}")
             try:
                 back = zarr_roundtrip(o, tmp, zip_=case["zip"], lazy=case["lazy"])
             except Exception as e:  # noqa
@@ -557,10 +618,18 @@ class C30(Property):
             diffs = compare_objects(o, back)
             if diffs:
                 what = diffs[0][0].split(".")[0].rstrip("0123456789")
-                if case.get("special") and what == "metadata":
-                    key = {"reserved-key": "metadata-reserved-key-dropped", "fake-tuple": "metadata-dict-with-_type-tuple-reloads-as-tuple"}[case["special"]]
-                else:
-                    key = f"{kind}-{what}-changed"
+                key = f"{kind}-{what}-changed"
+                if case.get("special") and len(diffs) == 1 and what == "metadata":
+                    # the recorded finding is reported only when the reloaded metadata is exactly what the finding says
+                    want = normalise(copy.deepcopy(o.metadata))
+                    if case["special"] == "reserved-key":
+                        want.pop("type", None)
+                        known_key = "metadata-reserved-key-dropped"
+                    else:
+                        want["note"] = (1, 2)
+                        known_key = "metadata-dict-with-_type-tuple-reloads-as-tuple"
+                    if strict_same(want, normalise(back.metadata)):
+                        key = known_key
                 ctx.violation(key, case, {"diffs": diffs[:5]})
                 return "diff"
             return "ok"
@@ -588,6 +657,9 @@ def parse_wire(s):
         if t == "a":
             v, j = p(i + 1)
             return np.array(v), j
+        if t == "al":
+            v, j = p(i + 1)
+            return ArrLike(v), j
         tag, _, rest = t.partition(":")
         if tag == "b":
             return rest == "T", i + 1
